@@ -9,6 +9,7 @@ import (
 	"time"
 
 	"Havoc/cmd/server"
+	"Havoc/pkg/events"
 	"Havoc/pkg/handlers"
 	"Havoc/pkg/packager"
 
@@ -367,8 +368,8 @@ func idx(l []string, x string) int {
 }
 
 func Run(r *ev.Run) {
-	r.Rule = "(1) explicit-state BFS over record/broadcast/remove/connect/disconnect histories: every transition replayed on a fresh real teamserver with real handler goroutines parked on scripted websocket connections under the controlled scheduler (default schedule), each operator's received frames compared with an event-log reference model after every step; (2) every write index x fault kind on one operator's transport x interleavings of a second broadcaster; (3) every schedule within the preemption bound of two concurrent broadcasters (and a joining operator). distinct = distinct observations"
-	r.Assume("a stalled transport is modelled as an arbitrarily delayed write that finally fails (what TCP delivers); a write that never returns is outside the model",
+	r.Rule = "(1) explicit-state BFS over record/broadcast/remove/connect/disconnect histories: every transition replayed on a fresh real teamserver with real handler goroutines parked on scripted websocket connections under the controlled scheduler (default schedule), each operator's received frames compared with an event-log reference model after every step; (2) every write index x fault kind on one operator's transport x interleavings of a second broadcaster; (3) every schedule within the preemption bound of two concurrent broadcasters (and a joining operator); (7) a stall that lasts: one operator's transport takes no bytes from write index w on until a thread that only records and the replay to a third operator are done - every w, every schedule within the bound. distinct = distinct observations"
+	r.Assume("a stalled transport is modelled as an arbitrarily delayed write that finally fails (what TCP delivers); in part 7 the delay lasts until every thread that does not write to the stalled operator has finished (threads that do write to it wait, as a synchronous broadcast must)",
 		"2 operators, 2 agents, 2 listener names; preemption bound as reported")
 	if os.Getenv("VERIF_RACE_PASS") != "" {
 		runFree(r)
@@ -391,7 +392,7 @@ func Run(r *ev.Run) {
 		r.AddStates(res.States, res.Transitions, res.Transitions)
 	}
 	// the four schedule/fault parts, each schedule tree split over treeParts worker processes
-	parts := []func(*ev.Run) (int64, int64){runFaults, runSchedules, runReplayVsRemove, runJoinVsRegister, runRemoveVsRecord}
+	parts := []func(*ev.Run) (int64, int64){runFaults, runSchedules, runReplayVsRemove, runJoinVsRegister, runRemoveVsRecord, runStall}
 	const treeParts = 4
 	r.Bounds["schedule_tree_shards"] = treeParts
 	par.Run(r, len(parts)*treeParts, 40*time.Minute, func(i, n int, r *ev.Run) {
@@ -585,4 +586,94 @@ func runRemoveVsRecord(r *ev.Run) (int64, int64) {
 	}
 	r.Extra["remove_vs_record"+shardSuffix()] = map[string]any{"preemption_bound": bound, "executions": t.Executions, "choice_points": t.Points, "distinct_observations": len(outcomes)}
 	return t.Executions, t.Points
+}
+
+// Part 7: a stall that lasts.  U's transport stops taking bytes at write index w (every w)
+// and stays that way until everybody who has no business with U is done: a thread that
+// only records an event, and the replay of the retained events to a third operator W.
+// Threads that write to U (a listener error being reported, a console line being
+// broadcast) may wait for U - that is what a synchronous broadcast means - but what they
+// hold while they wait must not keep the others from finishing: with no enabled thread
+// left while the recorder or W's replay is unfinished, the stalled operator blocks
+// somebody it should not.  (Implied by the statement's "all still complete"; the
+// finite-delay model of part 2 cannot see it, because there everything finishes once
+// the write fails.)
+func runStall(r *ev.Run) (int64, int64) {
+	bound := 1
+	if r.Thorough() {
+		bound = 2
+	}
+	var exec, points int64
+	outcomes := map[string]bool{}
+	t := explore.Tree{Bound: bound, Deadline: time.Now().Add(treeDeadline(r))}
+	t.RunShard(treeShard, treeShards, func(c *explore.Chooser) {
+		ts := seam.New(seam.Options{})
+		defer ts.Close()
+		ts.MustRegister(idA, 1)
+		ts.T.ListenerStart(handlers.LISTENER_PIVOT_SMB, handlers.SMBConfig{Name: "n1", PipeName: "p"})
+		ts.T.EventAppend(ts.T.ListenerAdd("", handlers.LISTENER_PIVOT_SMB, ts.T.Listeners[0].Config))
+		u := preAuth(ts.T, "U", "op1")
+		v := preAuth(ts.T, "V", "op2")
+		wcl := preAuth(ts.T, "W", "op3")
+		const maxW = 3
+		w := c.Choose(maxW, "stall-at-write")
+		var s *vsched.Sched
+		recorderDone, replayDone := false, false
+		stalled := false
+		u.Raw.OnWrite = func(n int, p []byte) (int, error) {
+			if n >= w {
+				if !stalled {
+					stalled = true
+					s.Block("U's transport takes no bytes until the recorder and W's replay are done", func() bool { return recorderDone && replayDone })
+				}
+				return 0, errors.New("write: connection timed out")
+			}
+			return 0, nil
+		}
+		s = vsched.New(c, 20000, "EventsList", "Clients")
+		s.Spawn("listener-error", func() { ts.T.EventListenerError("n1", errors.New("listen: boom")) })
+		s.Spawn("broadcaster", func() {
+			ts.T.AgentConsole(fmt.Sprintf("%08x", idA), 0x80, map[string]string{"Type": "Good", "Message": "m"})
+		})
+		s.Spawn("recorder", func() {
+			ts.T.EventAppend(events.ChatLog.NewUserConnected("x"))
+			recorderDone = true
+		})
+		s.Spawn("replay-to-W", func() {
+			ts.T.SendAllPackagesToNewClient("W")
+			replayDone = true
+		})
+		s.Run()
+		gotW, _ := tags(wcl)
+		gotV, badV := tags(v)
+		detail := map[string]any{"stall_at_write": w, "choices": c.Choices(), "schedule_tail": tail(s.Trace, 40), "recorder_done": recorderDone, "replay_to_W_done": replayDone, "v_received": gotV, "w_received": gotW}
+		outcomes[fmt.Sprintf("w=%d/stalled=%v/v=%d/w=%d", w, stalled, len(gotV), len(gotW))] = true
+		switch {
+		case len(s.Panics) > 0:
+			r.Violate("stall/panic/"+ev.Normalize(s.Panics[0]), s.Panics[0], detail)
+		case s.Deadlock && (!recorderDone || !replayDone):
+			r.Violate("stall/blocks-a-thread-that-does-not-write-to-the-stalled-operator", fmt.Sprintf("while U's transport is stalled, recording an event (done=%v) or the replay to another operator (done=%v) cannot finish: %s", recorderDone, replayDone, s.DeadlockWhy), detail)
+		case s.Deadlock:
+			r.Violate("stall/deadlock", s.DeadlockWhy, detail)
+		case s.HorizonHit:
+			r.Violate("stall/horizon", "did not finish", detail)
+		case len(s.Held()) > 0:
+			r.Violate("stall/lock-held", fmt.Sprintf("mutex still held at the end: %v", s.Held()), detail)
+		case badV != "":
+			r.Violate("stall/frame", badV, detail)
+		}
+	})
+	if t.Err != nil {
+		r.Violate("harness/nondeterminism", t.Err.Error(), nil)
+	}
+	if t.Capped {
+		r.NotExhaustive("stall exploration stopped by the internal deadline")
+	}
+	exec += t.Executions
+	points += t.Points
+	for o := range outcomes {
+		r.Outcome("stall/" + o)
+	}
+	r.Extra["stall"+shardSuffix()] = map[string]any{"executions": exec, "choice_points": points, "stall_at_write": "0..2", "deviation_bound": bound}
+	return exec, points
 }
